@@ -1377,7 +1377,7 @@ fn gen_phase3(rng: &mut Rng, case: u64, seed: u64) -> Scenario {
                     policy_now[h] = p.clone();
                     script.push(Ev::Policy { head: h, policy: p });
                 }
-                2 => script.push(Ev::Restart),
+                2 | 3 => script.push(Ev::Restart),
                 _ => {}
             }
         }
